@@ -415,8 +415,9 @@ pub fn held(s: impl Strategy<Value = NetCase>) -> impl Strategy<Value = NetCase>
 }
 
 pub fn ordered(s: impl Strategy<Value = NetCase>) -> impl Strategy<Value = NetCase> {
-    (s, 0u8..2).prop_map(|(mut c, o)| {
+    (s, 0u8..2, prop_oneof![2 => Just(false), 1 => Just(true)]).prop_map(|(mut c, o, same_host)| {
         c.builder_order = o;
+        c.same_host = same_host;
         c
     })
 }
@@ -451,6 +452,7 @@ pub fn c01_strategy_up(max_reqs: usize, up_weight: u32) -> impl Strategy<Value =
             shutdown_on_accept: None,
             builder_order: 0,
             hold_server_future: false,
+            same_host: false,
         })
     })
 }
@@ -489,6 +491,7 @@ pub fn c07_strategy(max_reqs: usize) -> impl Strategy<Value = NetCase> {
             shutdown_on_accept: None,
             builder_order: 0,
             hold_server_future: false,
+            same_host: false,
         }})
     })
 }
@@ -518,6 +521,7 @@ pub fn c07_burst_strategy(max_reqs: usize) -> impl Strategy<Value = NetCase> {
             shutdown_on_accept: Some(k),
             builder_order: 0,
             hold_server_future: false,
+            same_host: false,
         })
     })
 }
@@ -543,6 +547,7 @@ pub fn c13_e2e_strategy(max_reqs: usize) -> impl Strategy<Value = NetCase> {
             shutdown_on_accept: None,
             builder_order: 0,
             hold_server_future: false,
+            same_host: false,
         })
     })
 }
@@ -569,6 +574,7 @@ pub fn c04_e2e_strategy(max_reqs: usize) -> impl Strategy<Value = NetCase> {
             shutdown_on_accept: None,
             builder_order: 0,
             hold_server_future: false,
+            same_host: false,
         })
     })
 }
@@ -595,6 +601,7 @@ pub fn c15_e2e_strategy(max_reqs: usize) -> impl Strategy<Value = NetCase> {
             shutdown_on_accept: None,
             builder_order: 0,
             hold_server_future: false,
+            same_host: false,
         })
     })
 }
@@ -615,6 +622,7 @@ pub fn c19_strategy(max_reqs: usize) -> impl Strategy<Value = NetCase> {
             shutdown_on_accept: None,
             builder_order: 0,
             hold_server_future: false,
+            same_host: false,
         })
     })
 }
@@ -639,6 +647,7 @@ pub fn c09_strategy(max_reqs: usize) -> impl Strategy<Value = NetCase> {
                 shutdown_on_accept: None,
             builder_order: 0,
             hold_server_future: false,
+            same_host: false,
             })
     })
 }
@@ -658,6 +667,9 @@ pub fn run(ctx: &Ctx) -> i32 {
             }
             if rf.engine == "socksrv" {
                 return replay_one(ctx, &crate::engines::socksrv::SockEngine, &rf);
+            }
+            if rf.engine == "dupstream" {
+                return replay_one(ctx, &crate::engines::socksrv::DupStreamEngine, &rf);
             }
             if std::env::var_os("VERIF_TRACE").is_some() {
                 if let Ok(case) = serde_json::from_value::<NetCase>(rf.case.clone()) {
@@ -727,6 +739,8 @@ pub fn run(ctx: &Ctx) -> i32 {
             total.merge(run_generated(ctx, &engine, "fault-sequences", move || c09_strategy(max_reqs.min(8)), ctx.cases(30_000, 1_500_000), 300));
             // TLS listener: plaintext, truncated ClientHello, silent peers; then a probe
             total.merge(crate::props::stack::leg(ctx, "C09"));
+            // accept loops written against the duplex listener's Stream interface
+            total.merge(run_generated(ctx, &crate::engines::socksrv::DupStreamEngine, "duplex-stream-accept-loop", crate::engines::socksrv::dupstream_strategy, ctx.cases(3_000, 100_000), 100));
             // real TCP / Unix acceptors (real time): reset or close before accept, garbage, truncation
             let sctx = Ctx { threads: 8, ..ctx.clone() };
             total.merge(run_generated(&sctx, &crate::engines::socksrv::SockEngine, "tcp-unix-acceptors", crate::engines::socksrv::strategy, ctx.cases(400, 20_000), 60));
